@@ -91,7 +91,10 @@ fn fwd_payload(i: usize, s: &StreamSpec) -> Vec<u8> {
     payload(1000 + i as u64, s.len as usize, head_of(s))
 }
 fn rev_payload(i: usize, s: &StreamSpec) -> Vec<u8> {
-    payload(5000 + i as u64, s.reverse_len as usize, &[])
+    // the reverse direction of a bidirectional stream has no preamble: bytes that look like one
+    // must come through untouched
+    let head = HEADS[(s.head as usize / 2) % HEADS.len()];
+    payload(5000 + i as u64, s.reverse_len as usize, head)
 }
 
 async fn write_plan(send: &mut SendStream, data: &[u8], chunks: &[u16], write_all: bool) -> Res<()> {
